@@ -4,7 +4,7 @@ From Coq Require Import Ascii String.
 From Coq Require Import List ZArith NArith Bool Lia.
 From Coq.Strings Require Import Byte.
 From OgRek Require Import Base Utf8 GoStrconv PyQuote Float Value PyEq Dict Reader Decoder Typeconv Encoder Norm.
-From OgRek Require Import BaseFacts ReaderFacts CodecFacts IntFacts DecoderFacts EncoderFacts ExecFacts.
+From OgRek Require Import BaseFacts ReaderFacts CodecFacts IntFacts DecoderFacts EncoderFacts ExecFacts Utf8Facts.
 Import ListNotations.
 Open Scope N_scope.
 
@@ -249,16 +249,28 @@ Qed.
 
 (* ---- sequences of pushed values -------------------------------------------------------------------- *)
 
-Definition pushes_many (cfg : dconfig) (bytes_ : bytes) (ts : list tval) : Prop :=
-  forall i st rest,
+(* pushes for decoders whose announced protocol (PROTO opcode) is pr: the only piece of decoder
+   state an encoder form depends on (the module name of the bytearray builtin) *)
+Definition pushes_at (cfg : dconfig) (pr : N) (bytes_ : bytes) (t : tval) : Prop :=
+  forall i st rest, d_proto st = pr ->
+    exists i' st' x,
+      exec cfg i st (bytes_ ++ rest) i' st' rest /\
+      d_stack st' = x :: d_stack st /\ erase x = Some t /\
+      d_memo st' = d_memo st /\ d_proto st' = d_proto st /\ d_heap st' = d_heap st.
+
+Lemma pushes_any : forall cfg pr b t, pushes cfg b t -> pushes_at cfg pr b t.
+Proof. intros cfg pr b t H i st rest _. apply H. Qed.
+
+Definition pushes_many (cfg : dconfig) (pr : N) (bytes_ : bytes) (ts : list tval) : Prop :=
+  forall i st rest, d_proto st = pr ->
     exists i' st' xs,
       exec cfg i st (bytes_ ++ rest) i' st' rest /\
       d_stack st' = rev xs ++ d_stack st /\ map_opt erase xs = Some ts /\
       d_memo st' = d_memo st /\ d_proto st' = d_proto st /\ d_heap st' = d_heap st.
 
-Lemma pushes_many_nil : forall cfg, pushes_many cfg [] [].
+Lemma pushes_many_nil : forall cfg pr, pushes_many cfg pr [] [].
 Proof.
-  intros cfg i st rest. exists i, st, []. split; [apply exec_refl|]. repeat split; reflexivity.
+  intros cfg pr i st rest _. exists i, st, []. split; [apply exec_refl|]. repeat split; reflexivity.
 Qed.
 
 Lemma map_opt_app_one : forall xs x ts t,
@@ -270,13 +282,13 @@ Proof.
     inversion H; subst. rewrite (IH x tys t eq_refl Hx). reflexivity.
 Qed.
 
-Lemma pushes_many_cons : forall cfg b t bs ts,
-  pushes cfg b t -> pushes_many cfg bs ts -> pushes_many cfg (b ++ bs) (t :: ts).
+Lemma pushes_many_cons : forall cfg pr b t bs ts,
+  pushes_at cfg pr b t -> pushes_many cfg pr bs ts -> pushes_many cfg pr (b ++ bs) (t :: ts).
 Proof.
-  intros cfg b t bs ts Hb Hbs i st rest.
+  intros cfg pr b t bs ts Hb Hbs i st rest Hpr.
   rewrite <- app_assoc.
-  destruct (Hb i st (bs ++ rest)) as [i1 [st1 [x [E1 [S1 [T1 [M1 [P1 H1]]]]]]]].
-  destruct (Hbs i1 st1 rest) as [i2 [st2 [xs [E2 [S2 [T2 [M2 [P2 H2]]]]]]]].
+  destruct (Hb i st (bs ++ rest) Hpr) as [i1 [st1 [x [E1 [S1 [T1 [M1 [P1 H1]]]]]]]].
+  destruct (Hbs i1 st1 rest (eq_trans P1 Hpr)) as [i2 [st2 [xs [E2 [S2 [T2 [M2 [P2 H2]]]]]]]].
   exists i2, st2, (x :: xs). split; [eapply exec_trans; eassumption|].
   repeat split.
   - rewrite S2, S1. cbn [rev]. rewrite <- app_assoc. reflexivity.
@@ -328,11 +340,11 @@ Qed.
 
 (* ---- containers ------------------------------------------------------------------------------------- *)
 
-Lemma push_mark_tuple : forall cfg bs ts,
-  pushes_many cfg bs ts -> pushes cfg (x28 :: bs ++ [x74]) (TTuple ts).
+Lemma push_mark_tuple : forall cfg pr bs ts,
+  pushes_many cfg pr bs ts -> pushes_at cfg pr (x28 :: bs ++ [x74]) (TTuple ts).
 Proof.
-  intros cfg bs ts H i st rest. cbn [app]. rewrite <- app_assoc. cbn [app].
-  destruct (H (i + 1) (push VMark st) (x74 :: rest)) as [i1 [st1 [xs [E1 [S1 [T1 [M1 [P1 H1]]]]]]]].
+  intros cfg pr bs ts H i st rest Hpr. cbn [app]. rewrite <- app_assoc. cbn [app].
+  destruct (H (i + 1) (push VMark st) (x74 :: rest) Hpr) as [i1 [st1 [xs [E1 [S1 [T1 [M1 [P1 H1]]]]]]]].
   pose proof (map_opt_no_mark xs ts T1) as NM.
   assert (SM : split_mark (d_stack st1) = Some (rev xs, d_stack st)).
   { rewrite S1. cbn [push set_stack d_stack]. apply split_mark_app. rewrite existsb_rev. exact NM. }
@@ -363,12 +375,12 @@ Proof.
   inversion H; subst. cbn. f_equal. apply IH. reflexivity.
 Qed.
 
-Lemma push_tuple_n : forall cfg bs ts n op,
+Lemma push_tuple_n : forall cfg pr bs ts n op,
   (n = 1%nat /\ op = x85) \/ (n = 2%nat /\ op = x86) \/ (n = 3%nat /\ op = x87) ->
-  length ts = n -> pushes_many cfg bs ts -> pushes cfg (bs ++ [op]) (TTuple ts).
+  length ts = n -> pushes_many cfg pr bs ts -> pushes_at cfg pr (bs ++ [op]) (TTuple ts).
 Proof.
-  intros cfg bs ts n op Hn Hl H i st rest. rewrite <- app_assoc. cbn [app].
-  destruct (H i st (op :: rest)) as [i1 [st1 [xs [E1 [S1 [T1 [M1 [P1 H1]]]]]]]].
+  intros cfg pr bs ts n op Hn Hl H i st rest Hpr. rewrite <- app_assoc. cbn [app].
+  destruct (H i st (op :: rest) Hpr) as [i1 [st1 [xs [E1 [S1 [T1 [M1 [P1 H1]]]]]]]].
   pose proof (map_opt_length xs ts T1) as L. pose proof (map_opt_no_mark xs ts T1) as NM.
   assert (R : forall k, k = n ->
             run (tuple_n st1 k) rest = (Ok (HOk (set_stack st1 (VTuple xs :: d_stack st))), rest)).
@@ -384,11 +396,11 @@ Proof.
     cbn [erase]. rewrite T1. reflexivity.
 Qed.
 
-Lemma push_mark_list : forall cfg bs ts,
-  pushes_many cfg bs ts -> pushes cfg (x28 :: bs ++ [x6c]) (TList ts).
+Lemma push_mark_list : forall cfg pr bs ts,
+  pushes_many cfg pr bs ts -> pushes_at cfg pr (x28 :: bs ++ [x6c]) (TList ts).
 Proof.
-  intros cfg bs ts H i st rest. cbn [app]. rewrite <- app_assoc. cbn [app].
-  destruct (H (i + 1) (push VMark st) (x6c :: rest)) as [i1 [st1 [xs [E1 [S1 [T1 [M1 [P1 H1]]]]]]]].
+  intros cfg pr bs ts H i st rest Hpr. cbn [app]. rewrite <- app_assoc. cbn [app].
+  destruct (H (i + 1) (push VMark st) (x6c :: rest) Hpr) as [i1 [st1 [xs [E1 [S1 [T1 [M1 [P1 H1]]]]]]]].
   pose proof (map_opt_no_mark xs ts T1) as NM.
   assert (SM : split_mark (d_stack st1) = Some (rev xs, d_stack st)).
   { rewrite S1. cbn [push set_stack d_stack]. apply split_mark_app. rewrite existsb_rev. exact NM. }
@@ -408,13 +420,13 @@ Proof. intros cfg i st rest. eexists; eexists; eexists. split; [eapply exec_one;
 Definition plain_class (m n : bytes) : Prop :=
   (bytes_eqb m (bs "_codecs") && bytes_eqb n (bs "encode")) = false /\ bytes_eqb n (bs "bytearray") = false.
 
-Lemma push_reduce : forall cfg bc m n bt ts,
-  plain_class m n -> pushes cfg bc (TClass m n) -> pushes cfg bt (TTuple ts) ->
-  pushes cfg (bc ++ bt ++ [x52]) (TCall m n ts).
+Lemma push_reduce : forall cfg pr bc m n bt ts,
+  plain_class m n -> pushes_at cfg pr bc (TClass m n) -> pushes_at cfg pr bt (TTuple ts) ->
+  pushes_at cfg pr (bc ++ bt ++ [x52]) (TCall m n ts).
 Proof.
-  intros cfg bc m n bt ts [PC1 PC2] Hc Ht i st rest. rewrite <- !app_assoc. cbn [app].
-  destruct (Hc i st (bt ++ x52 :: rest)) as [i1 [st1 [xc [E1 [S1 [T1 [M1 [P1 H1]]]]]]]].
-  destruct (Ht i1 st1 (x52 :: rest)) as [i2 [st2 [xt [E2 [S2 [T2 [M2 [P2 H2]]]]]]]].
+  intros cfg pr bc m n bt ts [PC1 PC2] Hc Ht i st rest Hpr. rewrite <- !app_assoc. cbn [app].
+  destruct (Hc i st (bt ++ x52 :: rest) Hpr) as [i1 [st1 [xc [E1 [S1 [T1 [M1 [P1 H1]]]]]]]].
+  destruct (Ht i1 st1 (x52 :: rest) (eq_trans P1 Hpr)) as [i2 [st2 [xt [E2 [S2 [T2 [M2 [P2 H2]]]]]]]].
   apply erase_class_inv in T1. subst xc.
   apply erase_tuple_inv in T2. destruct T2 as [l [-> El]].
   eexists; eexists; eexists. split.
@@ -425,11 +437,11 @@ Proof.
     cbn [erase]. rewrite El. reflexivity.
 Qed.
 
-Lemma push_binpersid : forall pd su bp t,
-  pushes (Build_dconfig pd su None) bp t -> pushes (Build_dconfig pd su None) (bp ++ [x51]) (TRef t).
+Lemma push_binpersid : forall pd su pr bp t,
+  pushes_at (Build_dconfig pd su None) pr bp t -> pushes_at (Build_dconfig pd su None) pr (bp ++ [x51]) (TRef t).
 Proof.
-  intros pd su bp t Hp i st rest. rewrite <- app_assoc. cbn [app].
-  destruct (Hp i st (x51 :: rest)) as [i1 [st1 [x [E1 [S1 [T1 [M1 [P1 H1]]]]]]]].
+  intros pd su pr bp t Hp i st rest Hpr. rewrite <- app_assoc. cbn [app].
+  destruct (Hp i st (x51 :: rest) Hpr) as [i1 [st1 [x [E1 [S1 [T1 [M1 [P1 H1]]]]]]]].
   eexists; eexists; eexists. split.
   - eapply exec_trans; [exact E1|]. eapply exec_one; [reflexivity|reflexivity|].
     cbn [handler]. rewrite S1, (erase_not_mark x t T1). reflexivity.
@@ -437,16 +449,105 @@ Proof.
     cbn [erase]. rewrite T1. reflexivity.
 Qed.
 
-Lemma push_stack_global : forall cfg bm bn m n,
-  pushes cfg bm (TStr m) -> pushes cfg bn (TStr n) -> pushes cfg (bm ++ bn ++ [x93]) (TClass m n).
+Lemma push_stack_global : forall cfg pr bm bn m n,
+  pushes_at cfg pr bm (TStr m) -> pushes_at cfg pr bn (TStr n) -> pushes_at cfg pr (bm ++ bn ++ [x93]) (TClass m n).
 Proof.
-  intros cfg bm bn m n Hm Hn i st rest. rewrite <- !app_assoc. cbn [app].
-  destruct (Hm i st (bn ++ x93 :: rest)) as [i1 [st1 [xm [E1 [S1 [T1 [M1 [P1 H1]]]]]]]].
-  destruct (Hn i1 st1 (x93 :: rest)) as [i2 [st2 [xn [E2 [S2 [T2 [M2 [P2 H2]]]]]]]].
+  intros cfg pr bm bn m n Hm Hn i st rest Hpr. rewrite <- !app_assoc. cbn [app].
+  destruct (Hm i st (bn ++ x93 :: rest) Hpr) as [i1 [st1 [xm [E1 [S1 [T1 [M1 [P1 H1]]]]]]]].
+  destruct (Hn i1 st1 (x93 :: rest) (eq_trans P1 Hpr)) as [i2 [st2 [xn [E2 [S2 [T2 [M2 [P2 H2]]]]]]]].
   apply erase_str_inv in T1. subst xm. apply erase_str_inv in T2. subst xn.
   eexists; eexists; eexists. split.
   - eapply exec_trans; [exact E1|]. eapply exec_trans; [exact E2|].
     eapply exec_one; [reflexivity|reflexivity|]. cbn [handler]. rewrite S2, S1. reflexivity.
+  - cbn [push set_stack d_stack d_memo d_proto d_heap]. repeat split; congruence.
+Qed.
+
+(* ---- the two callables og-rek translates: _codecs.encode(text, 'latin1') and bytearray(bytes) ---- *)
+
+Lemma decode_latin1_l1 : forall s, decode_latin1 (VStr (latin1_to_utf8 s)) = Some s.
+Proof.
+  intros s. unfold decode_latin1. change (latin1_to_utf8 s) with (l1 s). rewrite utf8_runes_latin1.
+  assert (F : forallb (fun r => r <? 256) (map b2N s) = true).
+  { apply forallb_forall. intros r Hr. apply in_map_iff in Hr. destruct Hr as [b [<- _]].
+    apply N.ltb_lt. apply b2N_lt. }
+  cbv zeta. rewrite F. f_equal. rewrite map_map. rewrite <- (map_id s) at 2. apply map_ext. apply N2b_b2N.
+Qed.
+
+Lemma erase_bstr_inv : forall x s, erase x = Some (TBStr s) -> x = VBStr s.
+Proof.
+  intros x s H. destruct x; cbn in H; try discriminate;
+    try (match type of H with option_map _ ?e = _ => destruct e; discriminate end).
+  inversion H; reflexivity.
+Qed.
+Lemma erase_bytes_inv : forall x s, erase x = Some (TBytes s) -> x = VBytes s.
+Proof.
+  intros x s H. destruct x; cbn in H; try discriminate;
+    try (match type of H with option_map _ ?e = _ => destruct e; discriminate end).
+  inversion H; reflexivity.
+Qed.
+
+Lemma map_opt_erase_two : forall l a b, map_opt erase l = Some [a; b] ->
+  exists x y, l = [x; y] /\ erase x = Some a /\ erase y = Some b.
+Proof.
+  intros l a b H. destruct l as [|x [|y [|z r]]]; cbn in H; try discriminate.
+  - destruct (erase x); discriminate.
+  - destruct (erase x) as [tx|] eqn:Ex; [|discriminate]. destruct (erase y) as [ty|] eqn:Ey; [|discriminate].
+    inversion H; subst. exists x, y. repeat split; assumption.
+  - destruct (erase x); [|discriminate]. destruct (erase y); [|discriminate]. destruct (erase z); [|discriminate].
+    destruct (map_opt erase r); discriminate.
+Qed.
+Lemma map_opt_erase_one : forall l a, map_opt erase l = Some [a] -> exists x, l = [x] /\ erase x = Some a.
+Proof.
+  intros l a H. destruct l as [|x [|y r]]; cbn in H; try discriminate.
+  - destruct (erase x) as [tx|] eqn:Ex; [|discriminate]. inversion H; subst. exists x. split; [reflexivity|exact Ex].
+  - destruct (erase x); [|discriminate]. destruct (erase y); [|discriminate]. destruct (map_opt erase r); discriminate.
+Qed.
+
+Lemma push_reduce_codecs : forall cfg pr bc bt u tl data,
+  pushes_at cfg pr bc (TClass (bs "_codecs") (bs "encode")) ->
+  pushes_at cfg pr bt (TTuple [TStr u; tl]) ->
+  tl = TStr (bs "latin1") \/ tl = TBStr (bs "latin1") ->
+  decode_latin1 (VStr u) = Some data ->
+  pushes_at cfg pr (bc ++ bt ++ [x52]) (TBytes data).
+Proof.
+  intros cfg pr bc bt u tl data Hc Ht Htl HD i st rest Hpr. rewrite <- !app_assoc. cbn [app].
+  destruct (Hc i st (bt ++ x52 :: rest) Hpr) as [i1 [st1 [xc [E1 [S1 [T1 [M1 [P1 H1]]]]]]]].
+  destruct (Ht i1 st1 (x52 :: rest) (eq_trans P1 Hpr)) as [i2 [st2 [xt [E2 [S2 [T2 [M2 [P2 H2]]]]]]]].
+  apply erase_class_inv in T1. subst xc.
+  apply erase_tuple_inv in T2. destruct T2 as [l [-> El]].
+  apply map_opt_erase_two in El. destruct El as [x [y [-> [Ex Ey]]]].
+  apply erase_str_inv in Ex. subst x.
+  assert (SE : string_eq y (bs "latin1") = true).
+  { destruct Htl as [-> | ->]; [apply erase_str_inv in Ey|apply erase_bstr_inv in Ey]; subst y; reflexivity. }
+  eexists; eexists; eexists. split.
+  - eapply exec_trans; [exact E1|]. eapply exec_trans; [exact E2|].
+    eapply exec_one; [reflexivity|reflexivity|].
+    cbn [handler]. rewrite S2, S1. cbv beta iota zeta. unfold do_reduce.
+    rewrite !bytes_eqb_refl. cbn [length Nat.eqb nth andb]. rewrite SE, HD. reflexivity.
+  - cbn [push set_stack d_stack d_memo d_proto d_heap]. repeat split; congruence.
+Qed.
+
+Lemma pybuiltin_not_codecs : forall pr, bytes_eqb (pybuiltin_module pr) (bs "_codecs") = false.
+Proof. intros pr. unfold pybuiltin_module. destruct (pr <=? 2); reflexivity. Qed.
+
+Lemma push_reduce_bytearray : forall cfg pr bc bt data,
+  pushes_at cfg pr bc (TClass (pybuiltin_module pr) (bs "bytearray")) ->
+  pushes_at cfg pr bt (TTuple [TBytes data]) ->
+  pushes_at cfg pr (bc ++ bt ++ [x52]) (TBArr data).
+Proof.
+  intros cfg pr bc bt data Hc Ht i st rest Hpr. rewrite <- !app_assoc. cbn [app].
+  destruct (Hc i st (bt ++ x52 :: rest) Hpr) as [i1 [st1 [xc [E1 [S1 [T1 [M1 [P1 H1]]]]]]]].
+  destruct (Ht i1 st1 (x52 :: rest) (eq_trans P1 Hpr)) as [i2 [st2 [xt [E2 [S2 [T2 [M2 [P2 H2]]]]]]]].
+  apply erase_class_inv in T1. subst xc.
+  apply erase_tuple_inv in T2. destruct T2 as [l [-> El]].
+  apply map_opt_erase_one in El. destruct El as [x [-> Ex]].
+  apply erase_bytes_inv in Ex. subst x.
+  eexists; eexists; eexists. split.
+  - eapply exec_trans; [exact E1|]. eapply exec_trans; [exact E2|].
+    eapply exec_one; [reflexivity|reflexivity|].
+    cbn [handler]. rewrite S2, S1. cbv beta iota zeta. unfold do_reduce.
+    rewrite pybuiltin_not_codecs. cbn [andb set_stack d_proto].
+    rewrite P2, P1, Hpr, !bytes_eqb_refl. reflexivity.
   - cbn [push set_stack d_stack d_memo d_proto d_heap]. repeat split; congruence.
 Qed.
 
@@ -456,17 +557,20 @@ Section RT.
   Variable c : econfig.
   Variable pd : bool.
   Let cfg := dcfg_of c pd.
+  (* the protocol the decoder has been told by the PROTO opcode Encode emits (none below 2) *)
+  Definition dproto_of : N := if (2 <=? e_proto c)%Z then Z.to_N (e_proto c) else 0.
+  Let pr := dproto_of.
 
-  Definition good (p : wprog) (t : tval) : Prop := wok p /\ pushes cfg (wout p) t.
-  Definition good_many (p : wprog) (ts : list tval) : Prop := wok p /\ pushes_many cfg (wout p) ts.
+  Definition good (p : wprog) (t : tval) : Prop := wok p /\ pushes_at cfg pr (wout p) t.
+  Definition good_many (p : wprog) (ts : list tval) : Prop := wok p /\ pushes_many cfg pr (wout p) ts.
 
   Lemma good_emit : forall b t, pushes cfg b t -> good (emit b) t.
-  Proof. intros b t H. split; [apply wok_emit|rewrite wout_emit; exact H]. Qed.
+  Proof. intros b t H. split; [apply wok_emit|rewrite wout_emit; apply pushes_any; exact H]. Qed.
 
   Lemma good_emit2 : forall a s t, pushes cfg (a ++ s) t -> good (wseq (emit a) (emit s)) t.
   Proof.
     intros a s t H. split; [apply wok_wseq; apply wok_emit|].
-    rewrite wout_wseq by apply wok_emit. rewrite !wout_emit. exact H.
+    rewrite wout_wseq by apply wok_emit. rewrite !wout_emit. apply pushes_any. exact H.
   Qed.
 
   Lemma rt_bool : forall b, good (enc_bool c b) (TBool b).
@@ -555,7 +659,7 @@ Section RT.
 
   Lemma good_seq3 : forall p q r bp bq br t,
     wok p -> wok q -> wok r -> wout p = bp -> wout q = bq -> wout r = br ->
-    pushes cfg (bp ++ bq ++ br) t -> good (wseq p (wseq q r)) t.
+    pushes_at cfg pr (bp ++ bq ++ br) t -> good (wseq p (wseq q r)) t.
   Proof.
     intros p q r bp bq br t Hp Hq Hr Ep Eq Er H. split.
     - apply wok_wseq; [assumption|apply wok_wseq; assumption].
@@ -604,18 +708,64 @@ Section RT.
     apply negb_true_iff in H1, H2. split; assumption.
   Qed.
 
-  Lemma rt_bytes : forall s, (3 <= e_proto c)%Z -> Nlen s < 4294967296 -> good (enc_bytes c s) (TBytes s).
+  Lemma pybuiltin_agree : pybuiltin_module pr = pybuiltin_mod c.
   Proof.
-    intros s Hp Hl. unfold enc_bytes. apply Z.leb_le in Hp. rewrite Hp. cbv zeta.
-    destruct (Nlen s <? 256) eqn:E.
-    - apply good_emit2. apply N.ltb_lt in E. exact (push_short_binbytes cfg s E).
-    - apply good_emit2. exact (push_binbytes cfg s Hl).
+    unfold pr, dproto_of, pybuiltin_module, pybuiltin_mod.
+    destruct (2 <=? e_proto c)%Z eqn:E2; destruct (e_proto c <=? 2)%Z eqn:E3.
+    - assert (e_proto c = 2%Z) by lia. rewrite H. reflexivity.
+    - assert (L : (Z.to_N (e_proto c) <=? 2) = false) by (apply N.leb_gt; lia). rewrite L. reflexivity.
+    - reflexivity.
+    - lia.
   Qed.
 
-  Lemma rt_bytearray : forall s, (5 <= e_proto c)%Z -> Nlen s < 2 ^ 63 -> good (enc_bytearray c s) (TBArr s).
+  Lemma class_ok_small : forall m n, Nlen m < 4294967296 -> Nlen n < 4294967296 ->
+    has_lf m = false -> has_lf n = false -> class_ok c m n = true.
   Proof.
-    intros s Hp Hl. unfold enc_bytearray. apply Z.leb_le in Hp. rewrite Hp.
-    apply good_emit2. exact (push_bytearray8 cfg s Hl).
+    intros m n Lm Ln Hm Hn. unfold class_ok, len32. destruct (4 <=? e_proto c)%Z.
+    - apply andb_true_iff. split; apply N.ltb_lt; assumption.
+    - rewrite Hm, Hn. reflexivity.
+  Qed.
+
+  Lemma rt_bytes : forall s, bytes_ok c s = true -> good (enc_bytes c s) (TBytes s).
+  Proof.
+    intros s H. unfold bytes_ok in H. unfold enc_bytes. destruct (3 <=? e_proto c)%Z eqn:E3; cbv zeta.
+    - unfold len32 in H. apply N.ltb_lt in H. destruct (Nlen s <? 256) eqn:E.
+      + apply good_emit2. apply N.ltb_lt in E. exact (push_short_binbytes cfg s E).
+      + apply good_emit2. exact (push_binbytes cfg s H).
+    - apply andb_true_iff in H. destruct H as [Hp Hl]. apply Z.leb_le in Hp. unfold len32 in Hl. apply N.ltb_lt in Hl.
+      unfold wrap_call.
+      assert (CO : class_ok c (bs "_codecs") (bs "encode") = true) by (apply class_ok_small; reflexivity).
+      destruct (rt_class _ _ CO) as [Wc Pc].
+      destruct (rt_unicode (latin1_to_utf8 s) Hp Hl) as [Wu Pu].
+      assert (L6 : Nlen (bs "latin1") < 4294967296) by reflexivity.
+      destruct (rt_bytestring (bs "latin1") Hp L6) as [Wb Pb].
+      set (tl := if e_strict c then TBStr (bs "latin1") else TStr (bs "latin1")) in *.
+      assert (GM : good_many (wseq (enc_unicode c (latin1_to_utf8 s)) (enc_bytestring c (bs "latin1")))
+                             [TStr (latin1_to_utf8 s); tl]).
+      { split; [apply wok_wseq; assumption|]. rewrite wout_wseq by assumption.
+        apply pushes_many_cons; [exact Pu|].
+        rewrite <- (app_nil_r (wout (enc_bytestring c (bs "latin1")))).
+        apply pushes_many_cons; [exact Pb|apply pushes_many_nil]. }
+      destruct (rt_wrap_tuple _ [TStr (latin1_to_utf8 s); tl] 2%nat eq_refl GM) as [Wt Pt].
+      apply (good_seq3 _ _ _ _ _ _ _ Wc Wt (wok_emit _) eq_refl eq_refl (wout_emit _)).
+      eapply push_reduce_codecs; [exact Pc|exact Pt| |apply decode_latin1_l1].
+      unfold tl. destruct (e_strict c); [right|left]; reflexivity.
+  Qed.
+
+  Lemma rt_bytearray : forall s, barr_ok c s = true -> good (enc_bytearray c s) (TBArr s).
+  Proof.
+    intros s H. unfold barr_ok in H. unfold enc_bytearray. destruct (5 <=? e_proto c)%Z eqn:E5.
+    - apply N.ltb_lt in H. apply good_emit2. exact (push_bytearray8 cfg s H).
+    - unfold wrap_call.
+      assert (CO : class_ok c (pybuiltin_mod c) (bs "bytearray") = true).
+      { unfold pybuiltin_mod. destruct (e_proto c <=? 2)%Z; apply class_ok_small; reflexivity. }
+      destruct (rt_class _ _ CO) as [Wc Pc]. destruct (rt_bytes s H) as [Wb Pb].
+      assert (GM : good_many (enc_bytes c s) [TBytes s]).
+      { split; [exact Wb|]. rewrite <- (app_nil_r (wout (enc_bytes c s))).
+        apply pushes_many_cons; [exact Pb|apply pushes_many_nil]. }
+      destruct (rt_wrap_tuple _ [TBytes s] 1%nat eq_refl GM) as [Wt Pt].
+      apply (good_seq3 _ _ _ _ _ _ _ Wc Wt (wok_emit _) eq_refl eq_refl (wout_emit _)).
+      apply push_reduce_bytearray; [|exact Pt]. rewrite pybuiltin_agree. exact Pc.
   Qed.
 
   Lemma rt_ref : forall pid p t, (1 <= e_proto c)%Z -> good p t -> good (enc_ref c pid p) (TRef t).
@@ -624,7 +774,7 @@ Section RT.
     assert (E : (e_proto c =? 0)%Z = false) by (apply Z.eqb_neq; lia). rewrite E.
     split; [apply wok_wseq; [exact W|apply wok_emit]|].
     rewrite wout_wseq; [|exact W|apply wok_emit]. rewrite wout_emit.
-    unfold cfg, dcfg_of. apply push_binpersid. exact P.
+    unfold cfg, dcfg_of in *. apply push_binpersid. exact P.
   Qed.
 
   Definition encl : list rval -> wprog :=
@@ -677,16 +827,18 @@ Section RT.
     - (* strings *)
       destruct ty; cbn [enc]; unfold norm_text, len32 in H;
         match type of H with (if ?b then _ else _) = _ => destruct b eqn:E; [|discriminate] end;
-        inversion H; subst; apply andb_true_iff in E; destruct E as [E1 E2];
-        apply Z.leb_le in E1; apply N.ltb_lt in E2.
-      + apply rt_string; assumption.
-      + apply rt_string; assumption.
-      + apply rt_unicode; assumption.
+        inversion H; subst.
+      + apply andb_true_iff in E; destruct E as [E1 E2]; apply Z.leb_le in E1; apply N.ltb_lt in E2.
+        apply rt_string; assumption.
+      + apply andb_true_iff in E; destruct E as [E1 E2]; apply Z.leb_le in E1; apply N.ltb_lt in E2.
+        apply rt_string; assumption.
+      + apply andb_true_iff in E; destruct E as [E1 E2]; apply Z.leb_le in E1; apply N.ltb_lt in E2.
+        apply rt_unicode; assumption.
       + apply rt_bytes; assumption.
-      + apply rt_bytestring; assumption.
+      + apply andb_true_iff in E; destruct E as [E1 E2]; apply Z.leb_le in E1; apply N.ltb_lt in E2.
+        apply rt_bytestring; assumption.
     - (* bytearray *)
-      destruct ((5 <=? e_proto c)%Z && (Nlen s <? 2 ^ 63)) eqn:E; [|discriminate]. inversion H; subst.
-      apply andb_true_iff in E. destruct E as [E1 E2]. apply Z.leb_le in E1. apply N.ltb_lt in E2.
+      destruct (barr_ok c s) eqn:E; [|discriminate]. inversion H; subst.
       cbn [enc]. apply rt_bytearray; assumption.
     - (* Tuple *)
       destruct (map_opt (norm c) l) as [ts|] eqn:E; [|discriminate]. inversion H; subst.
@@ -774,18 +926,18 @@ Proof.
   assert (X : exists i1 st1,
             exec (dcfg_of c pd) 0 (start_state st)
                  (wout pre ++ (wout (enc c v) ++ [x2e]) ++ rest) i1 st1
-                 ((wout (enc c v) ++ [x2e]) ++ rest) /\ d_stack st1 = []).
+                 ((wout (enc c v) ++ [x2e]) ++ rest) /\ d_stack st1 = [] /\ d_proto st1 = dproto_of c).
   { unfold pre. destruct (2 <=? e_proto c)%Z eqn:E2.
     - rewrite wout_emit. eexists; eexists. split.
       + cbn [app]. eapply exec_one; [reflexivity|reflexivity|].
         cbn [handler run]. rewrite b2N_Z2b_small by lia.
         assert (L : (5 <? Z.to_N (e_proto c)) = false) by (apply N.ltb_ge; lia).
         rewrite L. reflexivity.
-      + reflexivity.
-    - rewrite wout_WDone. eexists; eexists. split; [apply exec_refl|reflexivity]. }
-  destruct X as [i1 [st1 [X1 S1]]].
+      + unfold dproto_of. rewrite E2. split; reflexivity.
+    - rewrite wout_WDone. eexists; eexists. split; [apply exec_refl|]. unfold dproto_of. rewrite E2. split; reflexivity. }
+  destruct X as [i1 [st1 [X1 [S1 PR1]]]].
   rewrite <- !app_assoc in *.
-  destruct (P i1 st1 ([x2e] ++ rest)) as [i2 [st2 [x [E2 [S2 [T2 _]]]]]].
+  destruct (P i1 st1 ([x2e] ++ rest) PR1) as [i2 [st2 [x [E2 [S2 [T2 _]]]]]].
   exists x, (set_stack st2 []). split; [|exact T2].
   eapply exec_decode.
   - eapply exec_trans; [exact X1|exact E2].
